@@ -8,7 +8,7 @@ import seqprop
 PROP = 'C04'
 RULE = ('Sequences from 10 shape families (scale 1e-25..1e25, offsets up to 1e12 spreads, restricted by the guard '
         'n*max|x|^N <= 1e300 and sigma^N >= 1e-280) fed one at a time to define_moments! instantiations of order '
-        'N in {4,5,6,8,10} (defined in the harness as a downstream crate would) and the crate\'s Moments4, plus '
+        'N in {4,5,6,7,8,9,10} (defined in the harness as a downstream crate would) and the crate\'s Moments4, plus '
         'Variance/Skewness/Kurtosis on the same data; observed after every add (n<=64) or at geometric checkpoints; '
         'len, mean, central_moment(p) and standardized_moment(p) for every p in 0..=N are compared with the exact '
         'rational central moments within the section-2 envelopes (p=0,1 and standardized 0,1,2 exactly); sample sizes 2^16..2^56 by '
@@ -29,7 +29,7 @@ def only_for(N):
 
 
 TYPES = [('Moments4', only_for(4)), ('M4', only_for(4)), ('M5', only_for(5)), ('M6', only_for(6)),
-         ('M8', only_for(8)), ('M10', only_for(10)), ('Kurtosis', None), ('Variance', None)]
+         ('M7', only_for(7)), ('M8', only_for(8)), ('M9', only_for(9)), ('M10', only_for(10)), ('Kurtosis', None), ('Variance', None)]
 
 
 def run(tier, seed):
@@ -67,7 +67,7 @@ def run(tier, seed):
                 total.merge(lres)
                 # sample sizes beyond 2^32 / 2^53 (self-merging), then single adds: the add path with a huge n
                 import bigcount
-                bc = [(t, ka, kb) for t in ('Moments4', 'M4', 'M5', 'M6', 'M8', 'M10') for ka, kb in [(16, 16), (32, 32), (33, 0), (40, 20), (53, 0), (54, 54)]]
+                bc = [(t, ka, kb) for t in ('Moments4', 'M4', 'M5', 'M6', 'M7', 'M8', 'M9', 'M10') for ka, kb in [(16, 16), (32, 32), (33, 0), (40, 20), (53, 0), (54, 54)]]
                 bdescs = [{'name': 'b%s%d' % (variant[0], s), 'variant': variant, 'binary': binary, 'work': bc[s::8], 'prop': PROP,
                            'only': dict(TYPES), 'seed': seed * 7 + s} for s in range(8)]
                 total.merge(common.run_shards(bigcount.shard, bdescs))
@@ -77,4 +77,4 @@ def run(tier, seed):
     for t, _ in TYPES:
         need['cases_%s' % t] = 50
     return common.finish(PROP, tier, seed, total, RULE, t0, ASSUME, min_events=need,
-                         extra={'builds': [v for v, _ in variants], 'orders_N': [4, 5, 6, 8, 10]})
+                         extra={'builds': [v for v, _ in variants], 'orders_N': [4, 5, 6, 7, 8, 9, 10]})
